@@ -81,7 +81,7 @@ def prefetchPos (pf : String) (n : Nat) : Nat :=
     else if pf == "1" then 4 else if pf == "1.5" then 6 else if pf == "-1" then -4 else 1
   (((4 - k) * (n : Int)) / 4).toNat
 
-def sessAnswer (consumer pf ps kind first script : String) : String :=
+def sessAnswer (ver consumer pf ps kind first script : String) : String :=
   match ps.toInt?, parseState first, parseScript script with
   | some pageSize, some fst, some sc =>
     if !(kind == "q" || kind == "x" || kind == "xs" || kind == "xd") then "bad-op" else
@@ -91,7 +91,9 @@ def sessAnswer (consumer pf ps kind first script : String) : String :=
     let pp := prefetchPos pf
     let o := if manualC then manual pp sc false q else run pp sc false q
     let rows := if consumer == "slicemap" && o.err.isSome then "nil" else showRows o.rows
-    s!"rows={rows} err={showFail o.err} reqs={showReqs 1 o.reqs}"
+    -- several nodes (`v4n2`): which node still needs a PREPARE depends on the host selection order; the harness does not log PREPAREs then
+    let reqs := if (ver.splitOn "n").length > 1 then o.reqs.filter Req.isExec else o.reqs
+    s!"rows={rows} err={showFail o.err} reqs={showReqs 1 reqs}"
   | _, _, _ => "bad-op"
 
 def step (_ : Unit) (ws : List String) : Unit × String :=
@@ -106,8 +108,8 @@ def step (_ : Unit) (ws : List String) : Unit × String :=
       if consumer == "slicemap" && o.err.isSome then s!"rows=nil err={err}"
       else s!"rows={showRows o.rows} err={err}"
   | ["ast", "paging"] => astExpect
-  | ["sess", _, consumer, pf, ps, kind, first, script] => sessAnswer consumer pf ps kind first script
-  | ["sessx", _, consumer, pf, ps, kind, first, script] => sessAnswer consumer pf ps kind first script
+  | ["sess", ver, consumer, pf, ps, kind, first, script] => sessAnswer ver consumer pf ps kind first script
+  | ["sessx", ver, consumer, pf, ps, kind, first, script] => sessAnswer ver consumer pf ps kind first script
   | _ => "bad-op")
 
 def init : Unit := ()
